@@ -792,6 +792,13 @@ class Engine:
         for g in c.ghosts:
             if self.ghost_hits.get(id(g), 0) == 0:
                 raise Undecided('anchor-moved: ghost anchor %r not found in %s' % (g.anchor, c.qualname))
+        # canaries: a deliberately false postcondition must be refutable on at least one normal exit path (the query
+        # "some path reaches its exit with the clause false" must be satisfiable); a canary that verifies means the
+        # pipeline proves anything for this function
+        for name, _e in c.canaries:
+            paths = self.canary_paths.get(name, [])
+            self.ctx.add(core.satisfiable('%s/canary/%s' % (self.label, name), z3.Or(*paths) if paths else z3.BoolVal(False), kind='canary'))
+        self.canaries_emitted = True
         for name in self.unmodelled:
             self.ctx.assume('%s: unmodelled call %s (result havocked)' % (self.label, name))
         return self
@@ -2133,10 +2140,11 @@ class Engine:
             return self.call_builtin(func.name, node, st)
         raise Undecided('call of %r' % (func,))
 
-    def call_localdef(self, fn, node, st):
+    def call_localdef(self, fn, node, st, allow_async=False):
         """call of a nested `def`: its real body is executed in a child state that sees the enclosing variables; every outcome
-        comes back as a Fork alternative.  Nested functions that rebind enclosing variables (nonlocal) are outside the subset."""
-        if isinstance(fn, ast.AsyncFunctionDef) or any(isinstance(n, (ast.Global, ast.Yield, ast.YieldFrom)) for n in ast.walk(fn)):
+        comes back as a Fork alternative.  Nested functions that rebind enclosing variables (nonlocal) are outside the subset.
+        allow_async: the caller is a contract's model of a combinator that awaits the coroutine to completion (e.g. a gather)"""
+        if (isinstance(fn, ast.AsyncFunctionDef) and not allow_async) or any(isinstance(n, (ast.Global, ast.Yield, ast.YieldFrom)) for n in ast.walk(fn)):
             raise Undecided('nested function %s uses global/yield or is a coroutine' % fn.name)
         nonlocals = {nm for n in ast.walk(fn) if isinstance(n, ast.Nonlocal) for nm in n.names}
         a = fn.args
@@ -2287,6 +2295,16 @@ class Engine:
         if name == 'abs':
             x = self.num(args[0])
             return z3.If(x >= 0, x, -x)
+        if name == 'divmod' and len(args) == 2:
+            a_, d_ = self.num(args[0]), self.num(args[1])
+            if not (z3.is_int(a_) and z3.is_int(d_)):
+                raise Undecided('divmod of non-integers')
+            # floor quotient and remainder of a positive divisor, introduced by their defining property (a == q*d + r,
+            # 0 <= r < d) rather than by z3's div with a symbolic divisor, which the arithmetic solver handles poorly
+            self.oblige(st, 'safety/divmod-divisor-positive@L%d' % node.lineno, d_ > 0, kind='safety')
+            q_, r_ = z3.Int(fresh_name('divmod_q')), z3.Int(fresh_name('divmod_r'))
+            st.assume(z3.And(a_ == q_ * d_ + r_, r_ >= 0, r_ < d_))
+            return (q_, r_)
         if name == 'int':
             x = args[0]
             if isinstance(x, (int, bool)):
